@@ -13,7 +13,10 @@ sed -i "s#/repo/packages#$D/repo/packages#" "$D/verif/harness/Cargo.toml"
 cp -r /verif/harness/target "$D/verif/harness/target" 2>/dev/null
 export VERIF_ROOT="$D/verif" BEFF_REPO="$D/repo" CARGO_NET_OFFLINE=true VERIF_SEED="$SEED"
 mkdir -p "$D/verif/work"
-( cd "$D/verif/harness" && cargo build --release --features wasmhook -j 8 >"$D/build.log" 2>&1 ) || { echo "$TAG BUILD FAILED"; tail -5 "$D/build.log"; }
+( cd "$D/verif/harness" && cargo build --release --features wasmhook -j 8 >"$D/build.log" 2>&1 ) || {
+  echo "$TAG full build failed, building without the engine hooks"
+  ( cd "$D/verif/harness" && cargo build --release --no-default-features --features wasmhook -j 8 >"$D/build.log" 2>&1 ) || { echo "$TAG BUILD FAILED"; tail -5 "$D/build.log"; }
+}
 for C in "$@"; do
   ( cd "$D/verif" && timeout 1800 "$D/verif/harness/target/release/beffv" check "$C" --tier quick >"$D/out-$C.log" 2>&1 ); rc=$?
   echo "$TAG $C exit=$rc $(grep -m1 -A1 '^VIOLATION' "$D/out-$C.log" | tr '\n' ' ' | cut -c1-300)"
